@@ -752,6 +752,19 @@ def pole_divisions(facts, res, R="C04.9.finite-at-centre-and-axis"):
                 elif k == "DeclRefExpr" and z.get("did") in decls and kids(decls[z["did"]]) and depth < 3 and "const" in decls[z["did"]].get("t", ""):
                     out |= quantity(kids(decls[z["did"]])[0], depth + 1)
             return out
+        def clamp_of(e, depth=0):
+            """the max / min / clamp call (or conditional) through which the divisor takes the quantity, if any"""
+            for z in walk(e):
+                k = z.get("k")
+                if k in ("CallExpr", "CXXMemberCallExpr") and tbf.callee_name(z) in ("max", "min", "fmax", "fmin", "clamp", "Max", "Min") and quantity(z):
+                    return z
+                if k == "ConditionalOperator" and quantity(kids(z)[0]):
+                    return z
+                if k == "DeclRefExpr" and z.get("did") in decls and kids(decls[z["did"]]) and depth < 3 and "const" in decls[z["did"]].get("t", ""):
+                    r = clamp_of(kids(decls[z["did"]])[0], depth + 1)
+                    if r is not None:
+                        return r
+            return None
         for x in walk(body):
             den = None
             if x.get("k") == "BinaryOperator" and x.get("op") == "/":
@@ -764,15 +777,31 @@ def pole_divisions(facts, res, R="C04.9.finite-at-centre-and-axis"):
             if not q:
                 continue
             n += 1
+            cl = clamp_of(den)
+            if cl is not None:
+                for qq in sorted(q & quantity(cl)):
+                    sites.append((m, x, "clamped:" + qq, cl))
+                q = q - quantity(cl)
             guards = set()
             for a in tbf.ancestors(x):
                 if a.get("k") in ("IfStmt", "ConditionalOperator"):
                     c0 = [y for y in kids(a) if y.get("k") != "DeclStmt"][0]
                     guards |= quantity(c0)
             for qq in sorted(q - guards):
-                sites.append((m, x, qq))
+                sites.append((m, x, qq, None))
     seen = set()
-    for m, x, qq in sites:
+    for m, x, qq, cl in sites:
+        if cl is not None:
+            qq = qq.split(":", 1)[1]
+            key = "clamped-divisor:%s:%s" % (m["name"] if m.get("cls") != "FSpherical" else "FSpherical", qq)
+            if key in seen:
+                continue
+            seen.add(key)
+            res.violation(R, tbf.rel(facts.path_of(x)), m["qname"], key, x["l"][1],
+                          "`%s` divides by the %s replaced by a floor value (`%s`): for a particle close to %s the quotient is no longer the term of the expansion - the terms that have a finite non-zero limit there (m = 1 on the axis) are scaled down by (true value / floor), a finite but O(1) wrong %s; the limit has to be taken analytically, not by bounding the divisor"
+                          % (facts.ntext(x)[:50], "radius" if qq == "radius" else "sine of the polar angle", facts.ntext(cl)[:70],
+                             "the centre of its leaf" if qq == "radius" else "the vertical axis through the centre of its leaf", "multipole" if m["name"] != "L2P" else "force for that particle"))
+            continue
         key = "unguarded-division:%s:%s" % (m["name"] if m.get("cls") != "FSpherical" else "FSpherical", qq)
         if key in seen:
             continue          # one report per (function, quantity): the other divisions by the same quantity share the cause
